@@ -17,7 +17,7 @@ fan-out, orphans unbounded; the root token is never a revocation target), with a
 the tokens the history can create: when a cascading revocation of `t` then reports success, `t` and every
 non-orphaned descendant `x` of `t` is dead — no entry, no own lease, no accessor entry, no cubbyhole key, every
 lease issued under it gone or queued for immediate revocation — and requests made with it are refused. -/
-theorem revoke_cascade_seq (h : List HStep) (hrf : ∀ st ∈ h, st.rootFree) (f : Nat)
+theorem revoke_cascade_seq (h : List HStep) (f : Nat) (hrf : HistOK f h St.init)
     (hF : 2 * (h.length + 1) + 8 ≤ f) (q : Req) (t : Nat) (hq : q.cascadeTarget = some t) (ht0 : t ≠ 0)
     (hok : okB (run (q.prog f) (runHist f h St.init)).1 = true) :
     ∀ x, Desc (runHist f h St.init) t x →
@@ -32,18 +32,50 @@ theorem revoke_cascade_seq (h : List HStep) (hrf : ∀ st ∈ h, st.rootFree) (f
   obtain ⟨g, rfl⟩ : ∃ g, f = g + 1 := ⟨f - 1, by omega⟩
   exact hI'.unusable g x hd.noEntry
 
+/-- FULL. `destroy_clears_routed_key`: for every token entry `TokenStore.create` can write — generated id,
+caller-chosen id, root or child namespace: `cubId = createCubId nsRoot pfx` — the storage prefix that
+`destroyCubbyhole` clears on revocation (`destroyKey`) is the prefix the router stores that token's cubbyhole
+requests under (`routerKey`), and both are defined. The cubbyhole clause of `revoke_cascade_seq` is proved from
+this (`purge1_noCub`): the routed prefix is cleared, and no other prefix ever held data of the token
+(`FInv.cubOwn`). -/
+theorem destroy_clears_routed_key (t : Nat) (e : TokEntry) (hwf : e.cubId = createCubId e.nsRoot e.pfx) :
+    destroyKey t e = routerKey t e ∧ (routerKey t e).isSome := by
+  have := destroyKey_eq_routerKey t e hwf
+  exact ⟨this.1, by rw [this.2]; rfl⟩
+
+/-- the three kinds: a generated id (service prefix), a caller-chosen id in the root namespace (no prefix, no
+CubbyholeID: the doubly salted token id is the prefix), a namespaced token -/
+example : routerKey 7 { parent := none, marked := false, cubId := true, pfx := true, nsRoot := true } = some (.cid 7)
+    ∧ routerKey 7 { parent := none, marked := false, cubId := false, pfx := false, nsRoot := true } = some (.salted 7)
+    ∧ routerKey 7 { parent := none, marked := false, cubId := true, pfx := true, nsRoot := false } = some (.cid 7)
+    ∧ destroyKey 7 { parent := none, marked := false, cubId := false, pfx := false, nsRoot := true } = some (.salted 7) := by
+  decide
+
+/-- witness for caller-chosen ids: #2 is created by the root with a chosen id, writes a cubbyhole key (stored
+under the doubly salted token id), is revoked, and a token with the SAME id is created again: its cubbyhole is
+empty (nothing under either prefix of identity #2) — the re-created token reads nothing of its namesake -/
+example :
+    let s := runHist 50 [.req (.create 0 false 5), .req (.createId 0 2 7), .req (.cubby 2 0), .req (.revoke 0 2),
+      .req (.createId 0 2 7)] St.init
+    (s.ids 2).isSome = true ∧ s.cub (.salted 2) 0 = false ∧ s.cub (.cid 2) 0 = false ∧
+    (runHist 50 [.req (.create 0 false 5), .req (.createId 0 2 7), .req (.cubby 2 0)] St.init).cub (.salted 2) 0 = true := by
+  decide +kernel
+
 /-- FULL. Revocation is final: a token that has been allocated and has no entry after a history `h1` is dead and
-refused after every continuation `h2` — no sequence of requests re-creates it (ids are never reused, no request
-writes an entry it did not read). -/
-theorem revoked_stays_revoked (h1 h2 : List HStep) (hrf1 : ∀ st ∈ h1, st.rootFree) (hrf2 : ∀ st ∈ h2, st.rootFree)
-    (f : Nat) (hF : 2 * (h1.length + h2.length + 1) + 8 ≤ f) (x : Nat)
-    (hx : x < (runHist f h1 St.init).next) (hgone : (runHist f h1 St.init).ids x = none) :
+refused after every continuation `h2` that does not create a token with that very id again (only a token with a
+caller-chosen id can be named again, by a request that names it: `Req.createId`); generated ids are never
+reused and no request writes an entry it did not read. -/
+theorem revoked_stays_revoked (h1 h2 : List HStep) (f : Nat) (hok : HistOK f (h1 ++ h2) St.init)
+    (hF : 2 * (h1.length + h2.length + 1) + 8 ≤ f) (x : Nat)
+    (hx : x < (runHist f h1 St.init).next) (hgone : (runHist f h1 St.init).ids x = none)
+    (hnew : ∀ st ∈ h2, st.recreates ≠ some x) :
     Dead (runHist f (h1 ++ h2) St.init) x ∧ (usable f x (runHist f (h1 ++ h2) St.init)).1 = false := by
-  obtain ⟨hI1, hn1, _, _⟩ := inv_hist h1 St.init f inv_init hrf1 (by simp [St.init]; omega)
+  obtain ⟨hok1, hok2⟩ := (histOK_append f h1 h2 St.init).mp hok
+  obtain ⟨hI1, hn1, _, _⟩ := inv_hist h1 St.init f inv_init hok1 (by simp [St.init]; omega)
   have hn1' : (runHist f h1 St.init).next ≤ h1.length + 1 := by simpa [St.init, Nat.add_comm] using hn1
-  obtain ⟨hI2, _, _, hkeep⟩ := inv_hist h2 (runHist f h1 St.init) f hI1 hrf2 (by omega)
+  obtain ⟨hI2, _, _, hkeep⟩ := inv_hist h2 (runHist f h1 St.init) f hI1 hok2 (by omega)
   rw [runHist_append]
-  have hnone := hkeep x hx hgone
+  have hnone := hkeep x hx hgone hnew
   refine ⟨hI2.deadClean x hnone, ?_⟩
   obtain ⟨g, rfl⟩ : ∃ g, f = g + 1 := ⟨f - 1, by omega⟩
   exact hI2.unusable g x hnone
@@ -57,7 +89,7 @@ example : okB (run ((Req.revoke 0 1).prog 50) (runHist 50
 
 /-- FULL. `revoke-orphan` of `t` that reports success kills exactly `t` (dead, refused); every child keeps its
 entry, now with no parent — so it is no longer a descendant of anything and later cascades do not reach it. -/
-theorem revoke_orphan_seq (h : List HStep) (hrf : ∀ st ∈ h, st.rootFree) (f : Nat)
+theorem revoke_orphan_seq (h : List HStep) (f : Nat) (hrf : HistOK f h St.init)
     (hF : 2 * (h.length + 1) + 8 ≤ f) (r t : Nat)
     (hok : okB (run ((Req.revokeOrphan r t).prog f) (runHist f h St.init)).1 = true) :
     Dead (run ((Req.revokeOrphan r t).prog f) (runHist f h St.init)).2 t ∧
@@ -80,7 +112,7 @@ theorem revoke_restart (f : Nat) (q : Req) (t : Nat) (hq : q.cascadeTarget = som
     (∀ (s : St) (k x : Nat), ParentGone x s →
         ParentGone x (runCrash k (q.prog f) s).restart ∧
         (usable (f+1) x (runCrash k (q.prog f) s).restart).1 = false) ∧
-    (∀ (h : List HStep), (∀ st ∈ h, st.rootFree) → 2 * (h.length + 1) + 8 ≤ f → t ≠ 0 →
+    (∀ (h : List HStep), HistOK f h St.init → 2 * (h.length + 1) + 8 ≤ f → t ≠ 0 →
         okB (run (q.prog f) (runHist f h St.init)).1 = true →
         ∃ K, ∀ k, K ≤ k → ∀ x, Desc (runHist f h St.init) t x →
           Dead (runCrash k (q.prog f) (runHist f h St.init)).restart x ∧
@@ -167,7 +199,7 @@ theorem revoke_fault_retry_partial (f : Nat) (q : Req) (t : Nat) (hq : q.cascade
     (∀ (s : St) (k x : Nat), ParentGone x s →
         ParentGone x (run (q.prog f) (runFault k (q.prog f) s).2).2 ∧
         (usable (f+1) x (run (q.prog f) (runFault k (q.prog f) s).2).2).1 = false) ∧
-    (∀ (h : List HStep) (k : Nat), (∀ st ∈ h, st.rootFree) → 2 * (h.length + 1) + 8 ≤ f → t ≠ 0 →
+    (∀ (h : List HStep) (k : Nat), HistOK f h St.init → 2 * (h.length + 1) + 8 ≤ f → t ≠ 0 →
         SameButPend (runHist f h St.init) (runFault k (q.prog f) (runHist f h St.init)).2 →
         (∀ key, (runFault k (q.prog f) (runHist f h St.init)).2.pend key ≠ some true) →
         okB (run (q.prog f) (runFault k (q.prog f) (runHist f h St.init)).2).1 = true →
@@ -188,7 +220,7 @@ theorem revoke_fault_retry_partial (f : Nat) (q : Req) (t : Nat) (hq : q.cascade
 lease delete, ...). If the failed attempt left a state `σ` that is the pre-state `s` with some tokens completely
 purged, children before parents (`Shrink`, `closed`), and that is clean again (`Inv`), then a retry that reports
 success kills the target and every non-orphaned descendant it had in `s`. -/
-theorem revoke_fault_retry_partial_purged (h : List HStep) (hrf : ∀ st ∈ h, st.rootFree) (f k : Nat)
+theorem revoke_fault_retry_partial_purged (h : List HStep) (f k : Nat) (hrf : HistOK f h St.init)
     (hF : 2 * (h.length + 1) + 8 ≤ f) (q : Req) (t : Nat) (hq : q.cascadeTarget = some t) (ht0 : t ≠ 0)
     (hIσ : Inv (runFault k (q.prog f) (runHist f h St.init)).2)
     (hs : Shrink (runHist f h St.init) (runFault k (q.prog f) (runHist f h St.init)).2)
@@ -242,7 +274,7 @@ with parent #1 and requests made with it are accepted. -/
 theorem revoke_vs_create_race_cex : ¬ revoke_vs_create_race_full := by
   intro hfull
   have h := hfull 50 [.req (.create 0 false 5)] (.revoke 0 1) 1 1 3 schedF3 rfl .self
-    (by decide +kernel) (by decide +kernel) ⟨some 1, false⟩ (by decide +kernel) rfl
+    (by decide +kernel) (by decide +kernel) { parent := some 1, marked := false } (by decide +kernel) rfl
   revert h
   decide +kernel
 
